@@ -49,10 +49,12 @@ def canonicalise(tree):
     an effect evaluated before it) -- is substituted into that statement, provided `t` is a plain local that no nested scope can
     see.  Positions of the consuming statement are kept."""
     # `L = []` ; `for x in IT: [if c:] L.append(E)`   ->   `L = [E for x in IT [if c]]`   (x not used after the loop)
-    for fn in ast.walk(tree):
-        if not isinstance(fn, (ast.FunctionDef, ast.AsyncFunctionDef)):
+    all_nodes = list(ast.walk(tree))
+    funcs = [n for n in all_nodes if isinstance(n, (ast.FunctionDef, ast.AsyncFunctionDef))]
+    for fn in funcs:
+        if not any(isinstance(x, ast.For) for x in ast.walk(fn)):
             continue
-        for node in ast.walk(fn):
+        for node in list(ast.walk(fn)):
             for field in ("body", "orelse", "finalbody"):
                 block = getattr(node, field, None)
                 if not (isinstance(block, list) and len(block) >= 2 and isinstance(block[0], ast.stmt)):
@@ -89,7 +91,8 @@ def canonicalise(tree):
                                 continue
                     i += 1
     # `a, b = x, y` -> `a = x; b = y` when the targets are distinct plain names that none of the right-hand sides reads
-    for node in ast.walk(tree):
+    all_nodes = list(ast.walk(tree))
+    for node in all_nodes:
         for field in ("body", "orelse", "finalbody"):
             block = getattr(node, field, None)
             if not (isinstance(block, list) and block and isinstance(block[0], ast.stmt)):
@@ -108,7 +111,7 @@ def canonicalise(tree):
                         continue
                 i += 1
     # `T = A if c else B` -> `if c: T = A else: T = B`;  `return A if c else B` -> `if c: return A else: return B`
-    for node in ast.walk(tree):
+    for node in all_nodes:
         for field in ("body", "orelse", "finalbody"):
             block = getattr(node, field, None)
             if not (isinstance(block, list) and block and isinstance(block[0], ast.stmt)):
@@ -122,7 +125,7 @@ def canonicalise(tree):
                         return ast.copy_location(ast.Assign(targets=[ast.Name(id=st.targets[0].id, ctx=ast.Store())], value=v, lineno=st.lineno), v)
                     block[i] = ast.copy_location(ast.If(test=st.value.test, body=[arm(st.value.body)], orelse=[arm(st.value.orelse)]), st)
     # `T[k] = T[k] <op> e`  ->  `T[k] <op>= e`   (element stores: read, operate, write back -- the same three steps either way)
-    for node in ast.walk(tree):
+    for node in list(ast.walk(tree)):
         for field in ("body", "orelse", "finalbody"):
             block = getattr(node, field, None)
             if not (isinstance(block, list) and block and isinstance(block[0], ast.stmt)):
